@@ -1,0 +1,8 @@
+//go:build !verif
+
+// Package verifhook provides named schedule-control points for the runtime
+// verification harness. Without the verif build tag they compile to nothing.
+package verifhook
+
+// Point is a no-op unless built with the verif tag.
+func Point(name string) {}
